@@ -180,4 +180,17 @@ CHECKS = {
                 "Non-trivial: a field with %, quote, backslash or a control character, or >=16 arguments.",
         "assumptions": COMMON_ASSUME + ["a sink line for a request answered ERROR is allowed", "record field names are matched case-insensitively with common aliases"],
     },
+    "C18": {
+        "quick": 500, "thorough": 25000,
+        "rule": "the authentication histories of C10 (two-scope configurations with every authenticator variant; 1..3 interleaved "
+                "sessions: ASCII/PAP logins, wrong passwords, aborts, every action/type/service/minor START, misplaced packets) with "
+                "the connection's shared secret replaced by a unique 19-character token and every presented password (PAP START data "
+                "of any action/minor/service; ASCII CONTINUE answering GETPASS) either a pool password of >=8 characters or a unique "
+                "token; a recording logger captures every Infof/Errorf/Debugf (rendered), Record (map + obscure list) and Set (fields "
+                "selected by key; Set really retains them in the context so later records show them). Oracle: no token occurs in a "
+                "rendered message, in a record key or value outside the keys that call obscures, or among the fields selected for "
+                "retention. Non-trivial: a password was presented and the history took a failure, error, abort or "
+                "unrecognised-START path.",
+        "assumptions": COMMON_ASSUME + ["passwords typed at the user-name prompt are not 'passwords presented' in the sense of the statement"],
+    },
 }
